@@ -224,6 +224,13 @@ def run(b, tier, seed, findings, known_seen):
                     cases += 1
                     try:
                         res = check(prov, k, first, last, rnd, findings)
+                    except AssertionError as e:
+                        # pytz conversion of a component without any STANDARD observance (a window inside summer time)
+                        from icalendar import Timezone
+                        comp = Timezone.from_tzid(k, icalendar.timezone.tzp, first, last)
+                        only_dst = all(sub.name == "DAYLIGHT" for sub in comp.subcomponents)
+                        res = [(f"{k} {first}..{last}: to_tz raises AssertionError (no STANDARD observance in the generated component: {only_dst})",
+                                "no_standard_observance_pytz" if only_dst and prov == "pytz" else None)]
                     except Exception as e:  # noqa
                         res = [(f"{k} {first}..{last}: {type(e).__name__}: {e}", None)]
                     for m, cls in res:
@@ -249,6 +256,31 @@ def run(b, tier, seed, findings, known_seen):
                             fails.append(f)
         finally:
             icalendar.timezone.tzp.use_default()
+    # windows that once failed (kept in every tier, pytz): a name shared by both kinds, a window inside summer time
+    icalendar.timezone.tzp.use("pytz")
+    try:
+        for k, first, last in (("Asia/Novokuznetsk", date(2007, 5, 3), date(2010, 6, 4)), ("Asia/Yakutsk", date(1989, 10, 4), date(1991, 7, 24)),
+                               ("America/Halifax", date(2000, 6, 1), date(2000, 6, 12))):
+            cases += 1
+            try:
+                res = check("pytz", k, first, last, rnd, findings, grid=40)
+            except AssertionError:
+                from icalendar import Timezone
+                comp = Timezone.from_tzid(k, icalendar.timezone.tzp, first, last)
+                only_dst = all(sub.name == "DAYLIGHT" for sub in comp.subcomponents)
+                res = [(f"{k} {first}..{last}: to_tz raises AssertionError (no STANDARD observance in the generated component: {only_dst})",
+                        "no_standard_observance_pytz" if only_dst else None)]
+            except Exception as e:  # noqa
+                res = [(f"{k} {first}..{last}: {type(e).__name__}: {e}", None)]
+            for m, cls in res:
+                f = {"witness": {"zone": k, "first": first.isoformat(), "last": last.isoformat(), "provider": "pytz"}, "detail": "[pytz] " + (f"<{cls}> " if cls else "") + m}
+                fid = match(f, findings, cls)
+                if fid:
+                    known_seen.append(f"{fid['id']} {fid['what']} (witness {k} {first}..{last} [pytz]: {m[:120]})")
+                elif len(fails) < 30:
+                    fails.append(f)
+    finally:
+        icalendar.timezone.tzp.use_default()
     b.cases = cases
     b.nontrivial = cases
     b.failures = fails
@@ -264,6 +296,8 @@ def match(f, findings, cls):
         if c.get("name") != cls:
             continue
         if c.get("provider") and c["provider"] != f["witness"].get("provider"):
+            continue
+        if c.get("zones") and f["witness"].get("zone") not in c["zones"]:
             continue
         return x
     return None
